@@ -8,7 +8,7 @@ loop exits nothing is computable, ongoing or unfetched. The liveness clauses (pr
 rounds, all tasks completed at exit) hold only under FIFO delivery on the pinned tree
 (known finding C03-last-output-overtakes) and are checked by the watchdog oracle of the check.
 -/
-import EkwVerif.Lemmas.SchedProgress
+import EkwVerif.Lemmas.SchedBound
 
 namespace EkwVerif.Ctrl
 
@@ -104,5 +104,14 @@ theorem c03_progress_partial (f : Sem) (j : Job) (cl : Cluster) (cm : Comps) (wf
     (he : stepX f j cl cm x (.base .enter) = some x1) (hs : AssignStar f j cl cm x1 x2)
     (hp : x2.sys.phase = .planning) : x2.sys.todo ≠ [] :=
   sP_progress f j cl cm wf wfc feas x x1 x2 hr htop hc ho he hs hp
+
+/-- **Bounded number of scheduling rounds — under FIFO delivery.** On every feasible cluster, whatever
+the heuristics choose and however executor steps interleave, the `while` loop of `impl.run` makes at
+most `roundBound j = Σ_t (1 + #inputs t + #outputs t) + #requested + 1` iterations (a function of the job
+only). Proof: a potential that never increases and drops at every dispatch and every non-empty
+`recv_events`, plus the progress theorem (an iteration that neither waited nor dispatched is impossible). -/
+theorem c03_bounded_partial (f : Sem) (j : Job) (cl : Cluster) (cm : Comps) (wf : WF j cl) (wfc : WFC j cm)
+    (feas : Feasible j cl) (x : SysX) (hr : ReachableFifo f j cl cm x) : x.sys.rounds ≤ roundBound j :=
+  sB_rounds_bounded f j cl cm wf wfc feas x hr
 
 end EkwVerif.Ctrl
